@@ -821,8 +821,14 @@ where
                 let mut lock = ptx.state().new_lock(f.id().try_into().unwrap());
                 if ptx.state().env().unlocked {
                     lock.force_owned();
-                } else {
-                    lock.try_lock()?;
+                } else if let Err(e) = lock.try_lock() {
+                    // (for example a cyclic dependency)  Jobs started for earlier
+                    // targets may still be running: do not return while they are,
+                    // or their results are never recorded and their locks are
+                    // released while their scripts still run.  Remember the error
+                    // and let the code below wait for them.
+                    result.set(Err(e));
+                    continue;
                 }
                 if !lock.is_owned() {
                     logs::meta(
@@ -838,13 +844,21 @@ where
                     // FIXME: separate obtaining the fid from creating the File.
                     // FIXME: maybe integrate locking into the File object?
                     f.refresh(&mut ptx)?;
-                    let job = BuildJob {
+                    let job = match (BuildJob {
                         t: t.into(),
                         sf: f,
                         lock,
                         should_build_func: should_build_func.clone(),
-                    }
-                    .start(ps_ref.clone(), ptx, server)?;
+                    })
+                    .start(ps_ref.clone(), ptx, server)
+                    {
+                        Ok(job) => job,
+                        Err(e) => {
+                            // as above: never abandon jobs that are already running
+                            result.set(Err(e));
+                            continue;
+                        }
+                    };
                     let t = t.to_string();
                     let result = &result;
                     job_futures.push(Box::pin(async move {
